@@ -51,8 +51,7 @@ let norm tok =
   let rest p = String.sub tok (String.length p) (String.length tok - String.length p) in
   if pre "PR," then "P," ^ rest "PR,"
   else if tok = "OX" then "O"
-  else if pre "Bi," then "B," ^ rest "Bi,"
-  else if pre "Bm," then "B," ^ rest "Bm,"
+  else if String.length tok >= 3 && tok.[0] = 'B' && tok.[1] <> ',' && tok.[2] = ',' then "B," ^ rest (String.sub tok 0 3)
   else tok
 let is_noop tok = tok = "Y" || tok = "Z" || (String.length tok >= 2 && String.sub tok 0 2 = "V,")
 
@@ -108,6 +107,13 @@ let () =
           let tok = norm tok in
           if tok = "D" then (while size !st > 0 do st := tstep d rv !st TPop; emit () done)
           else if is_noop tok then emit ()
+          else if tok = "PT" || tok = "PTR" then begin
+            (* push(top()): the argument is the value of the top at call time *)
+            (match !st with
+             | (prio, k :: _) -> st := (prio, snd (tstep d rv !st (TPush (k, nth k prio O))))
+             | _ -> ());
+            emit ()
+          end
           else begin
             (match dary_op tok with
              | TPop -> if size !st > 0 then st := tstep d rv !st TPop
@@ -144,9 +150,7 @@ let () =
         print_endline (String.concat " " (List.rev !outs))
       | "radix" :: w :: sg :: rb :: toks ->
         let w = n_of_int (int_of_string w) and rb = n_of_int (int_of_string rb) and sg = sg <> "0" in
-        let ops = List.map radix_op (List.filter (fun t -> t <> "Y" && t <> "Z" && t <> "X") toks) in
-        let outs = rrun w sg rb (rinit w rb) ops in
-        print_endline (String.concat " " (List.map2 (fun op ((vals, num), sz) ->
+        let show op ((vals, num), sz) =
           let body = match op with
             | RPush _ -> "i" ^ (match num with Some x -> string_of_int (int_of_n x) | None -> "?")
             | RTop -> "t" ^ String.concat "," (List.map show_val vals)
@@ -154,7 +158,23 @@ let () =
             | RSwap -> "w" ^ String.concat "," (List.map show_val vals)
             | RPeak -> "k" ^ (match num with Some x -> hex_of_n x | None -> "?")
             | RClear -> "c" in
-          body ^ ":" ^ string_of_int (int_of_nat sz)) ops outs))
+          body ^ ":" ^ string_of_int (int_of_nat sz) in
+        let st = ref (rinit w rb) and outs = ref [] in
+        List.iter (fun tok ->
+          if tok = "Y" || tok = "Z" || tok = "X" then ()
+          else if tok = "A" || tok = "M" || tok = "N" then begin
+            (* argument = the value top() returns at call time: top(), then push of that value *)
+            let (s1, ((vals, _), _)) = rstep w sg rb !st RTop in
+            (match vals with
+             | (k, p) :: _ ->
+               let op = RPush (k, p) in
+               let (s2, o) = rstep w sg rb s1 op in st := s2; outs := show op o :: !outs
+             | [] -> outs := "INVALID-HISTORY" :: !outs)
+          end else begin
+            let op = radix_op tok in
+            let (s', o) = rstep w sg rb !st op in st := s'; outs := show op o :: !outs
+          end) toks;
+        print_endline (String.concat " " (List.rev !outs))
       | "bitarray" :: _ -> print_endline "ok"     (* the model's filled_ IS the specification; see radix_harness.cpp *)
       | _ -> print_endline "?"
     done
